@@ -104,6 +104,59 @@ def run_dependent(out, tier):
     return n, bad
 
 
+GC_TEMPLATE = """static class Stats {{ public static int released = 0; public static Link keep = null; }}
+class Leaf {{ public qubit q; public constructor() -> Leaf {{ }}
+  public destructor() -> void {{ Stats.released = Stats.released + 1; echo("leaf released"); }} }}
+class Link {{ public Link peer; public Leaf leaf; public constructor() -> Link {{ this.peer = null; this.leaf = null; }} }}
+function makeGarbageCycle() -> void {{ Link a = new Link(); Link b = new Link(); a.leaf = new Leaf(); a.peer = b; b.peer = a; }}
+function main() -> void {{
+  {keep}
+  makeGarbageCycle();
+  for (int i = 0; i < {loops}; i = i + 1) {{ Link scratch = new Link(); {inner} }}
+  @tracked qubit t;
+  if (Stats.released == 1) {{ x(t); }}
+  echo("released=" + Stats.released);
+  measure t;
+}}
+"""
+
+
+def gc_dependent(out, tier):
+    """programs whose output depends on WHEN the allocation-driven collector runs (an unreachable cycle keeps alive an object with a
+    destructor and a qubit): under the program-driven pressure rule (no timer) every shot of a multi-shot run must print and
+    record what a fresh run prints and records"""
+    jobs, meta = [], {}
+    for keep in ("", "Stats.keep = new Link();"):
+        for loops in (5, 16, 17, 20, 31, 33, 40, 70):
+            for inner in ("", "if (i == 18) { makeGarbageCycle(); }"):
+                src = GC_TEMPLATE.format(keep=keep, loops=loops, inner=inner)
+                jid = len(jobs)
+                jobs.append({"id": jid, "src": src, "gc": "pressure"})
+                jobs.append({"id": jid + 1, "src": src, "gc": "pressure", "shots": 4, "reanalyse": True})
+                meta[jid] = (keep, loops, inner)
+    res = runner.run_jobs(jobs)
+    n = bad = 0
+    seen = set()
+    for jid, (keep, loops, inner) in meta.items():
+        f, m = res[jid], res[jid + 1]
+        if f["status"] != "ok" or f["shots"][0]["status"] != "ok":
+            raise vlib.Infra("fresh run of a collector-dependent template failed: %s" % str(f)[:300])
+        want = (f["shots"][0]["echo"], f["shots"][0].get("tracked"))
+        seen.add(want[0][-1])
+        for k, sh in enumerate(m.get("shots", [])):
+            n += 1
+            # tracked counts of a multi-shot result are per shot here (prog_runner reports each execution separately)
+            if m["status"] != "ok" or (sh["echo"], sh.get("tracked")) != want:
+                bad += 1
+                msg = ("collector-dependent program (static-held object: %s, %d allocations): execution %d of %d prints %s %s; a fresh run prints %s %s"
+                       % (bool(keep), loops, k + 1, len(m["shots"]), sh.get("echo", [])[-2:], sh.get("tracked"), want[0][-2:], want[1]))
+                out.violation(msg, {"what": msg, "program": jobs[jid]["src"], "multi": m, "fresh": f}, "gcdep%d" % jid)
+                break
+    if len(seen) < 2:
+        raise vlib.Infra("collector-dependent templates do not distinguish collection points: %s" % seen)
+    return n, bad
+
+
 def run(tier, seed):
     t0 = time.time()
     out = vlib.Outcome(PID)
@@ -142,7 +195,8 @@ def run(tier, seed):
     for i, b in enumerate(behs):
         src, info = qrender.render(b)
         infos[i] = info
-        jobs.append({"id": i, "src": src, "draws": qrender.draws_of(b) * N, "gc": "none", "shots": N, "want": ["events", "final", "qasm"]})
+        # every other behaviour runs its shots with echo output suppressed, as the CLI does for --shots=N without --echo=all
+        jobs.append({"id": i, "src": src, "draws": qrender.draws_of(b) * N, "gc": "none", "shots": N, "echo": i % 2 == 0, "want": ["events", "final", "qasm"]})
     qres = runner.run_jobs(jobs)
     for i, b in enumerate(behs):
         r = qres[i]
@@ -155,7 +209,7 @@ def run(tier, seed):
             continue
         for k, sh in enumerate(r["shots"]):
             one = dict(r, shots=[sh], status=sh["status"])
-            d = qrender.compare(b, infos[i], one)
+            d = qrender.compare(b, infos[i], one, echo_on=jobs[i]["echo"])
             shots_checked += 1
             if d:
                 bad.append(("q%d" % i, "shot %d of %d differs from a fresh run: %s" % (k + 1, N, d[0][1][:400]), jobs[i]["src"], sh))
@@ -212,6 +266,9 @@ def run(tier, seed):
         if got != exp:
             bad.append(("q%d" % i, "CLI aggregate table %s, expected %s" % (dict(got), dict(exp)), jobs[i]["src"], r))
     nrd, badrd = run_dependent(out, tier)
+    ngd, badgd = gc_dependent(out, tier)
+    nrd += ngd
+    badrd += badgd
     for tag, msg, src, r in bad[:8]:
         out.violation(msg, {"what": msg, "program": src, "result": r}, "p%s" % tag)
     cov = {"evaluations": shots_checked + cli_checked + nrd, "run_dependent_shots_compared": nrd, "distinct_nontrivial": len({s for s in srcs.values()}) + len(behs),
@@ -225,7 +282,9 @@ def run(tier, seed):
                    "A sample is also run through the real CLI with --shots=3 --echo=all: echo lines must be 3 repetitions, tracked counts 3x. "
                    "Run-dependent programs (one coin flip per run feeding static initialisers, final statics derived from statics, field array sizes, "
                    "specialisation creation order, static counters with destructors, default-constructor binding, tracked fields) are run as one "
-                   "multi-shot execution whose shots get DIFFERENT injected coins and shot by shot compared with fresh single runs given the same coin."}
+                   "multi-shot execution whose shots get DIFFERENT injected coins and shot by shot compared with fresh single runs given the same coin. "
+                   "Collector-dependent programs (an unreachable cycle keeping alive an object with a destructor and a qubit, 5..70 further allocations, "
+                   "with and without an object held by a static) run under the allocation-driven collection rule: each of 4 executions must equal a fresh run."}
     vlib.write_evidence(PID, tier, seed, "exploration", cov,
                         ["the abstract syntax tree is compared through behaviour (re-analysis + re-execution), not structurally"],
                         time.time() - t0, len(bad) + badrd)
